@@ -147,8 +147,8 @@ if __name__ == '__main__':
     ap = argparse.ArgumentParser()
     ap.add_argument('--only', help='substring filter on failing function names')
     ap.add_argument('-v', action='store_true')
-    ap.add_argument('extra', nargs='*')
-    a = ap.parse_args()
+    a, rest = ap.parse_known_args()
+    a.extra = rest
     os.environ.setdefault('VERIF_NOCACHE', '')
     text, info, run = generate_and_run(extra=a.extra)
     print('class:', classify(run), 'wall', run['wall_s'], 'cached', run['cached'])
